@@ -217,6 +217,12 @@ def gadget_networks() -> dict[str, list[list[int]]]:
                                       lambda s: s[1]])
     g["newsrc"] = bn.from_exprs(3, [lambda s: (s[0] and s[1]) or ((not s[1]) and s[2]), lambda s: s[1] or s[0],
                                     lambda s: not s[2]])
+    # self-sustaining variable driven by a conjunction / disjunction of external variables (control: external drivers
+    # larger than the motif)
+    g["gated_or"] = bn.from_exprs(3, [lambda s: s[0] or (s[1] and s[2]), lambda s: not s[2], lambda s: not s[1]])
+    g["gated_and"] = bn.from_exprs(3, [lambda s: s[0] and (s[1] or s[2]), lambda s: s[1], lambda s: not s[2]])
+    g["gated_or4"] = bn.from_exprs(4, [lambda s: s[0] or (s[1] and s[2] and s[3]), lambda s: s[2], lambda s: s[1], lambda s: not s[3]])
+    g["two_gates"] = bn.from_exprs(4, [lambda s: s[0] or (s[2] and s[3]), lambda s: s[1] and (s[2] or not s[3]), lambda s: not s[3], lambda s: not s[2]])
     g["xnor_latch"] = bn.disjoint_union(g["xnor2"], g["latch"])
     g["xnor_2latch"] = bn.disjoint_union(g["xnor_latch"], g["latch"])
     g["xnor_3latch"] = bn.disjoint_union(g["xnor_2latch"], g["latch"])
